@@ -3,7 +3,7 @@
 // Memfs operations over the MemfsGuard shim: every operation is verified against (a) the representation invariant wf
 // (property C03), (b) a reference transition written from the trait documentation (C01) including failure atomicity,
 // (c) the symlink laws (C10).  All path arguments reach the state only through _abs (C05 part 2).
-//@ prelude base errors path_abs memfs_state
+//@ prelude base errors io path_abs memfs_state
 
 //@ struct file=src/sys/fs/memfs/file.rs name=MemfsFile
 //@ endstruct
@@ -656,6 +656,320 @@ pub fn symlink(guard: &mut MemfsGuard, link: &PathBuf, target: &PathBuf) -> (r: 
                 &&& (r is Err) == (spec_add_err(s0, e) is Some)
                 &&& final(guard).st() == spec_add_st(s0, e)                    //@ clause symlink.transition [C10,C01]
                 &&& r is Ok ==> r->Ok_0@ == a->Some_0
+            })
+        }),
+//@ body
+
+// =====================================================================================================================
+// File contents (C06) and handles (C07): _clone_file / read / write / append and the compositions write_all / append_all
+// R4: Option<Memfs>/Option<PathBuf> clones inside `impl Clone for MemfsFile` (closure `.map(|x| x.clone())` is outside Verus)
+#[verifier::external_body]
+pub fn opt_clone_memfs(o: &Option<Memfs>) -> (r: Option<Memfs>) ensures r is Some == o is Some { unimplemented!() }
+#[verifier::external_body]
+pub fn opt_clone_path(o: &Option<PathBuf>) -> (r: Option<PathBuf>)
+    ensures r is Some == o is Some, o is Some ==> same_path(r->Some_0, o->Some_0) { unimplemented!() }
+// ASSUMED[seek-contract]: MemfsFile::seek(End(0)) sets pos to data.len() (proved in unit memfs_file)
+impl MemfsFile {
+    #[verifier::external_body]
+    pub fn seek_end0(&mut self) -> (r: RvResult<u64>)
+        ensures r is Ok, final(self).pos as int == old(self).data@.len(), final(self).data@ == old(self).data@,
+                final(self).path == old(self).path, final(self).fs == old(self).fs
+    { unimplemented!() }
+
+//@ item file_clone file=src/sys/fs/memfs/file.rs block="impl Clone for MemfsFile" fn=clone props=C06,C07,C12
+//@ rw R4 1 ⟦self.fs.as_ref().map(|x| x.clone())⟧ => ⟦opt_clone_memfs(&self.fs)⟧
+//@ rw R4 1 ⟦self.path.clone()⟧ => ⟦opt_clone_path(&self.path)⟧
+//@ rw R9 1 ⟦Self {⟧ => ⟦MemfsFile {⟧
+    pub fn clone(&self) -> (r: MemfsFile)
+        ensures r.fv() == self.fv(), r.path is Some == self.path is Some, r.fs is Some == self.fs is Some,     //@ clause file.clone.copies_bytes_no_alias [C06]
+//@ body
+}
+// NameSet / PathBuf clones inside `impl Clone for MemfsEntry`
+#[verifier::external_body]
+pub fn opt_clone_names(o: &Option<NameSet>) -> (r: Option<NameSet>) ensures kids_of(r) == kids_of(*o) { unimplemented!() }
+impl MemfsEntry {
+//@ item entry_clone file=src/sys/fs/memfs/entry.rs block="impl Clone for MemfsEntry" fn=clone props=C01,C12
+//@ rw R4 1 ⟦self.files.clone()⟧ => ⟦opt_clone_names(&self.files)⟧
+//@ rw R9 1 ⟦Self {⟧ => ⟦MemfsEntry {⟧
+    pub fn clone(&self) -> (r: MemfsEntry) ensures r.ev() == self.ev()
+//@ body
+}
+
+//@ item _clone_entry file=src/sys/fs/memfs/vfs.rs block="impl Memfs" fn=_clone_entry props=C01,C05,C12
+//@ rw R11 1 ⟦self._abs(guard, path)?⟧ => ⟦_abs(guard, path)?⟧
+pub fn _clone_entry(guard: &MemfsGuard, path: &PathBuf) -> (r: RvResult<MemfsEntry>)
+    requires guard.st().cwd_ok
+    ensures (r is Ok) == (at(guard.st(), path.comps()) is Some),
+            r is Ok ==> r->Ok_0.ev() == at(guard.st(), path.comps())->Some_0,     //@ clause entry.returns_stored_entry [C01]
+            (r is Err && spec_abs(guard.st().cwd, path.comps()) is Some) ==> r->Err_0.kind == ErrKind::DoesNotExist,
+//@ body
+
+//@ item _clone_file file=src/sys/fs/memfs/vfs.rs block="impl Memfs" fn=_clone_file props=C06,C07,C01,C05,C12
+//@ rw R11 1 ⟦self._abs(guard, path)?⟧ => ⟦_abs(guard, path)?⟧
+pub fn _clone_file(guard: &MemfsGuard, path: &PathBuf) -> (r: RvResult<MemfsFile>)
+    requires guard.st().cwd_ok
+    ensures ({
+        let s = guard.st();
+        let a = spec_abs(s.cwd, path.comps());
+        &&& a is None ==> r is Err
+        &&& a is Some ==> ({
+            let p = a->Some_0;
+            &&& (s.entries.contains_key(p) && !s.entries[p].file) ==> r is Err && r->Err_0.kind == ErrKind::IsNotFile      //@ clause read.not_a_file [C01]
+            &&& (!(s.entries.contains_key(p) && !s.entries[p].file) && !s.files.contains_key(p)) ==> r is Err && r->Err_0.kind == ErrKind::DoesNotExist
+            &&& (!(s.entries.contains_key(p) && !s.entries[p].file) && s.files.contains_key(p)) ==> r is Ok && r->Ok_0.fv() == s.files[p]     //@ clause read.returns_exact_content [C06,C07]
+        })
+    }),
+//@ body
+
+//@ item read file=src/sys/fs/memfs/vfs.rs block="impl VirtualFileSystem for Memfs" fn=read props=C06,C07,C01,C05,C12
+//@ rw R6 1 ⟦Ok(Box::new(self._clone_file(&self.read_guard(), &path)?))⟧ => ⟦Ok(_clone_file(guard, &path)?)⟧
+pub fn read(guard: &MemfsGuard, path: &PathBuf) -> (r: RvResult<MemfsFile>)
+    requires guard.st().cwd_ok, wf(guard.st()),
+    ensures ({
+        let s = guard.st();
+        let a = spec_abs(s.cwd, path.comps());
+        // the handle is a private copy of exactly the file's bytes, positioned at 0 (so Read/Seek behave like a Cursor over them, unit memfs_file)
+        &&& (a is Some && s.files.contains_key(a->Some_0)) ==> r is Ok && r->Ok_0.data@ == s.files[a->Some_0].data && r->Ok_0.pos == 0     //@ clause read.handle_is_cursor_over_content [C06,C07]
+        &&& (a is Some && !s.files.contains_key(a->Some_0)) ==> r is Err
+        &&& a is None ==> r is Err
+    }),
+//@ ins start
+        proof { match spec_abs(guard.st().cwd, path.comps()) { Some(p) => { assert(file_ok(guard.st(), p)); }, None => {} } }
+//@ endins
+//@ body
+
+//@ item write file=src/sys/fs/memfs/vfs.rs block="impl VirtualFileSystem for Memfs" fn=write props=C06,C07,C01,C03,C05,C12
+//@ rw R11 1 ⟦let mut guard = self.write_guard();⟧ => ⟦⟧
+//@ rw R11 1 ⟦self._abs(&guard, path)?⟧ => ⟦_abs(guard, path)?⟧
+//@ rw R11 1 ⟦self._add(&mut guard, MemfsEntry::opts(&path).file().build())?;⟧ => ⟦_add(guard, MemfsEntry::opts(&path).file().build())?;⟧
+//@ rw R6 1 ⟦Ok(Box::new(MemfsFile {⟧ => ⟦Ok((MemfsFile {⟧
+//@ rw R9 1 ⟦data: vec![],⟧ => ⟦data: Vec::new(),⟧
+//@ rw R11 1 ⟦fs: Some(self.clone()),⟧ => ⟦fs: Some(fs.clone()),⟧
+pub fn write(fs: &Memfs, guard: &mut MemfsGuard, path: &PathBuf) -> (r: RvResult<MemfsFile>)
+    requires wf(old(guard).st()),
+    ensures
+        r is Err ==> final(guard).st() == old(guard).st(),
+        ({
+            let s0 = old(guard).st();
+            let a = spec_abs(s0.cwd, path.comps());
+            &&& a is None ==> r is Err
+            &&& a is Some ==> ({
+                let e = new_file_entry(a->Some_0);
+                &&& (r is Err) == (spec_add_err(s0, e) is Some)
+                &&& final(guard).st() == spec_add_st(s0, e)                                            //@ clause write.creates_file_if_missing [C01]
+                // the handle starts empty at position 0 and is bound to abs(path): dropping it replaces the whole content (truncate)
+                &&& r is Ok ==> r->Ok_0.data@ == Seq::<u8>::empty() && r->Ok_0.pos == 0 && r->Ok_0.fs is Some
+                        && r->Ok_0.path is Some && r->Ok_0.path->Some_0@ == a->Some_0 && r->Ok_0.path->Some_0.abs_clean()    //@ clause write.handle_truncates [C06,C07]
+                &&& wf(final(guard).st()) || parent_is_link(s0, a->Some_0)
+            })
+        }),
+//@ body
+
+//@ item append file=src/sys/fs/memfs/vfs.rs block="impl VirtualFileSystem for Memfs" fn=append props=C06,C07,C01,C03,C05,C12
+//@ rw R11 1 ⟦let mut guard = self.write_guard();⟧ => ⟦⟧
+//@ rw R11 1 ⟦self._abs(&guard, path)?⟧ => ⟦_abs(guard, path)?⟧
+//@ rw R11 1 ⟦self._add(&mut guard, MemfsEntry::opts(&path).file().build())?;⟧ => ⟦_add(guard, MemfsEntry::opts(&path).file().build())?;⟧
+//@ rw R6 1 ⟦Ok(Box::new(clone))⟧ => ⟦Ok(clone)⟧
+//@ rw R11 1 ⟦clone.fs = Some(self.clone());⟧ => ⟦clone.fs = Some(fs.clone());⟧
+//@ rw R8 1 ⟦clone.seek(SeekFrom::End(0))?;⟧ => ⟦clone.seek_end0()?;⟧
+//@ ins after ⟦let path = _abs(guard, path)?;⟧
+        let ghost s0 = guard.st();
+        proof { assert(file_ok(s0, path@)); }
+//@ endins
+pub fn append(fs: &Memfs, guard: &mut MemfsGuard, path: &PathBuf) -> (r: RvResult<MemfsFile>)
+    requires wf(old(guard).st()),
+    ensures
+        r is Err ==> final(guard).st() == old(guard).st(),                     //@ clause append.failure_atomic [C01]
+        ({
+            let s0 = old(guard).st();
+            let a = spec_abs(s0.cwd, path.comps());
+            &&& a is None ==> r is Err
+            &&& a is Some ==> ({
+                let e = new_file_entry(a->Some_0);
+                &&& spec_add_err(s0, e) is Some ==> r is Err
+                &&& final(guard).st() == spec_add_st(s0, e)
+                // the handle holds the existing content as a prefix and is positioned at its end: writes extend, never alter the prefix
+                &&& (r is Ok && s0.files.contains_key(a->Some_0)) ==> r->Ok_0.data@ == s0.files[a->Some_0].data         //@ clause append.keeps_existing_prefix [C06]
+                &&& (r is Ok && !s0.files.contains_key(a->Some_0)) ==> r->Ok_0.data@ == Seq::<u8>::empty()
+                &&& r is Ok ==> final(guard).st().files.contains_key(a->Some_0) && r->Ok_0.data@ == final(guard).st().files[a->Some_0].data
+                &&& wf(final(guard).st()) || parent_is_link(s0, a->Some_0)
+                &&& r is Ok ==> r->Ok_0.pos as int == r->Ok_0.data@.len() && r->Ok_0.fs is Some
+                        && r->Ok_0.path is Some && r->Ok_0.path->Some_0@ == a->Some_0 && r->Ok_0.path->Some_0.abs_clean()    //@ clause append.handle_positioned_at_end [C06,C07]
+            })
+        }),
+//@ body
+
+// ---- MemfsFile::{sync, write, flush, drop}: the same real bodies and contracts as in unit memfs_file, needed here as callees
+// R4: `self.data.write(buf)` is `impl Write for Vec<u8>`.  ASSUMED[io-vec-write]: appends all of buf, returns Ok(buf.len())
+#[verifier::external_body]
+pub fn vec_write(v: &mut Vec<u8>, buf: &[u8]) -> (r: io::Result<usize>)
+    ensures final(v)@ == old(v)@ + buf@, r is Ok, r->Ok_0 == buf@.len()
+{ unimplemented!() }
+// R4: `Vec::clone_from` (Verus does not support it).  ASSUMED[vec-clone-from]: a.clone_from(b) makes a equal to b
+#[verifier::external_body]
+pub fn vec_clone_from(a: &mut Vec<u8>, b: &Vec<u8>) ensures final(a)@ == b@ { unimplemented!() }
+
+
+impl MemfsFile {
+    pub open spec fn bound_ok(&self) -> bool { self.path is Some ==> self.path->Some_0.abs_clean() }
+//@ item h_sync file=src/sys/fs/memfs/file.rs block="impl MemfsFile" fn=sync props=C07,C06,C03,C12
+//@ sig pub(crate) fn sync(&mut self) -> io::Result<()>
+//@ rw R11 1 ⟦let mut guard = fs.write_guard();⟧ => ⟦⟧
+//@ rw R4 1 ⟦f.data.clone_from(&self.data);⟧ => ⟦vec_clone_from(&mut f.data, &self.data);⟧
+//@ rw R5 1 re⟦format!\((?:[^()]|\([^()]*\))*\)⟧ => ⟦io::Msg{}⟧
+    pub fn sync(&mut self, guard: &mut MemfsGuard) -> (r: io::Result<()>)
+        requires old(self).bound_ok(),
+        ensures
+            *final(self) == *old(self),   //@ clause sync.handle_unchanged [C07]
+            // unbound handle: nothing happens
+            (old(self).fs is None || old(self).path is None) ==> r is Ok && final(guard).st() == old(guard).st(),
+            (old(self).fs is Some && old(self).path is Some) ==> ({
+                let p = old(self).path->Some_0@;
+                let s0 = old(guard).st();
+                let s1 = final(guard).st();
+                // target entry vanished: NotFound, nothing changed
+                &&& !s0.entries.contains_key(p) ==> r is Err && r->Err_0.kind == io::ErrorKind::NotFound && s1 == s0   //@ clause sync.notfound [C07,C01]
+                // otherwise Ok; the file content becomes exactly the handle's data; every other file, every entry and the cwd are unchanged
+                &&& s0.entries.contains_key(p) ==> r is Ok
+                &&& (s0.entries.contains_key(p) && s0.files.contains_key(p)) ==>
+                        s1 == (St { files: s0.files.insert(p, FileV { data: old(self).data@, pos: s0.files[p].pos }), ..s0 })   //@ clause sync.persist_and_frame [C07,C06,C03]
+                &&& (s0.entries.contains_key(p) && !s0.files.contains_key(p)) ==> s1 == s0
+            }),
+//@ body
+
+//@ item h_write file=src/sys/fs/memfs/file.rs block="impl io::Write for MemfsFile" fn=write props=C07,C06,C12
+//@ sig fn write(&mut self, buf: &[u8]) -> io::Result<usize>
+//@ rw R4 1 ⟦self.data.write(buf)⟧ => ⟦vec_write(&mut self.data, buf)⟧
+    pub fn write(&mut self, buf: &[u8]) -> (r: io::Result<usize>)
+        ensures r is Ok, r->Ok_0 == buf@.len(),
+                final(self).data@ == old(self).data@ + buf@,     //@ clause write.appends_all [C07,C06]
+                final(self).pos == old(self).pos && final(self).path == old(self).path && final(self).fs == old(self).fs,
+//@ body
+
+//@ item h_flush file=src/sys/fs/memfs/file.rs block="impl io::Write for MemfsFile" fn=flush props=C07,C06,C12
+//@ sig fn flush(&mut self) -> io::Result<()>
+//@ rw R11 1 ⟦self.sync()⟧ => ⟦self.sync(guard)⟧
+    pub fn flush(&mut self, guard: &mut MemfsGuard) -> (r: io::Result<()>)
+        requires old(self).bound_ok(),
+        ensures
+            *final(self) == *old(self),
+            (old(self).fs is Some && old(self).path is Some && old(guard).st().entries.contains_key(old(self).path->Some_0@)
+               && old(guard).st().files.contains_key(old(self).path->Some_0@)) ==>
+                r is Ok && final(guard).st().files[old(self).path->Some_0@].data == old(self).data@,    //@ clause flush.makes_data_visible [C07,C06]
+            forall|q: PathV| q != old(self).path->Some_0@ ==> (final(guard).st().files.contains_key(q) == old(guard).st().files.contains_key(q)
+               && (old(guard).st().files.contains_key(q) ==> final(guard).st().files[q] == old(guard).st().files[q])),   //@ clause flush.other_files_untouched [C06]
+            final(guard).st().entries == old(guard).st().entries,
+//@ body
+
+//@ item h_drop file=src/sys/fs/memfs/file.rs block="impl Drop for MemfsFile" fn=drop props=C07,C06,C12
+//@ sig fn drop(&mut self)
+//@ rw R11 1 ⟦self.sync()⟧ => ⟦self.sync(guard)⟧
+    pub fn drop(&mut self, guard: &mut MemfsGuard)
+        requires old(self).bound_ok(),
+        ensures
+            (old(self).fs is Some && old(self).path is Some && old(guard).st().entries.contains_key(old(self).path->Some_0@)
+               && old(guard).st().files.contains_key(old(self).path->Some_0@)) ==>
+                final(guard).st() == (St { files: old(guard).st().files.insert(old(self).path->Some_0@, FileV { data: old(self).data@, pos: old(guard).st().files[old(self).path->Some_0@].pos }), ..old(guard).st() }),  //@ clause drop.persists_exactly_the_bytes_written [C07,C06]
+            !(old(self).fs is Some && old(self).path is Some && old(guard).st().entries.contains_key(old(self).path->Some_0@)
+               && old(guard).st().files.contains_key(old(self).path->Some_0@)) ==> final(guard).st() == old(guard).st(),
+            final(self).fs is None && final(self).path is None,
+//@ body
+}
+
+// ASSUMED[io-traits]: Write::write_all(buf) calls write until everything is written; MemfsFile::write takes all of buf at once
+pub fn file_write_all(f: &mut MemfsFile, buf: &[u8]) -> (r: RvResult<()>)
+    ensures r is Ok, final(f).data@ == old(f).data@ + buf@, final(f).pos == old(f).pos, final(f).path == old(f).path, final(f).fs == old(f).fs
+{
+    match f.write(buf) { Ok(_) => Ok(()), Err(_) => Err(RvError { kind: ErrKind::Io }) }
+}
+// R5: `f.flush()?` converts io::Error into RvError (kind Io)
+pub fn flush_rv(f: &mut MemfsFile, guard: &mut MemfsGuard) -> (r: RvResult<()>)
+    requires old(f).bound_ok(),
+    ensures *final(f) == *old(f),
+        (old(f).fs is Some && old(f).path is Some && old(guard).st().entries.contains_key(old(f).path->Some_0@) && old(guard).st().files.contains_key(old(f).path->Some_0@)) ==>
+            r is Ok && final(guard).st() == (St { files: old(guard).st().files.insert(old(f).path->Some_0@, FileV { data: old(f).data@, pos: old(guard).st().files[old(f).path->Some_0@].pos }), ..old(guard).st() }),
+        (old(f).fs is Some && old(f).path is Some && old(guard).st().entries.contains_key(old(f).path->Some_0@) && !old(guard).st().files.contains_key(old(f).path->Some_0@)) ==>
+            r is Ok && final(guard).st() == old(guard).st(),
+        (old(f).fs is Some && old(f).path is Some && !old(guard).st().entries.contains_key(old(f).path->Some_0@)) ==> r is Err && final(guard).st() == old(guard).st(),
+{
+    match f.sync(guard) { Ok(_) => Ok(()), Err(_) => Err(RvError { kind: ErrKind::Io }) }
+}
+
+pub proof fn lemma_put_wf(s: St, a: PathV, data: Seq<u8>)
+    requires wf(s), s.files.contains_key(a)
+    ensures wf(put(s, a, data))
+{
+    let s2 = put(s, a, data);
+    assert forall|q: PathV| s2.entries.contains_key(q) implies #[trigger] entry_ok(s2, q) by { assert(entry_ok(s, q)); }
+    assert forall|q: PathV, n: Name| #[trigger] kids_ok(s2, q, n) by { assert(kids_ok(s, q, n)); }
+    assert forall|q: PathV| #[trigger] file_ok(s2, q) by { assert(file_ok(s, q)); }
+}
+//@ obligation lemma_put_wf props=C03
+pub open spec fn put(s: St, a: PathV, data: Seq<u8>) -> St { St { files: s.files.insert(a, FileV { data: data, pos: s.files[a].pos }), ..s } }
+
+//@ item write_all file=src/sys/fs/memfs/vfs.rs block="impl VirtualFileSystem for Memfs" fn=write_all props=C06,C01,C03,C05,C12
+//@ sig fn write_all<T: AsRef<Path>, U: AsRef<[u8]>>(&self, path: T, data: U) -> RvResult<()>
+//@ rw R12 1 ⟦let mut f = self.write(path)?;⟧ => ⟦let mut f = write(fs, guard, path)?;⟧
+//@ rw R12 1 ⟦f.write_all(data.as_ref())?;⟧ => ⟦file_write_all(&mut f, data)?;⟧
+//@ rw R12 1 re⟦Ok\(\(\)\)\s*\}\s*$⟧ => ⟦f.drop(guard); Ok(()) }⟧
+//@ ins after ⟦write(fs, guard, path)?;⟧
+        let ghost s1 = guard.st();
+        proof { assert(file_ok(s0, f.path->Some_0@)); if wf(s1) { assert(file_ok(s1, f.path->Some_0@)); if s1.files.contains_key(f.path->Some_0@) { lemma_put_wf(s1, f.path->Some_0@, data@); } } }
+//@ endins
+//@ ins start
+        let ghost s0 = guard.st();
+//@ endins
+pub fn write_all(fs: &Memfs, guard: &mut MemfsGuard, path: &PathBuf, data: &[u8]) -> (r: RvResult<()>)
+    requires wf(old(guard).st()),
+    ensures
+        r is Err ==> final(guard).st() == old(guard).st(),                                        //@ clause write_all.failure_atomic [C01]
+        ({
+            let s0 = old(guard).st();
+            let a = spec_abs(s0.cwd, path.comps());
+            &&& a is None ==> r is Err
+            &&& a is Some ==> ({
+                let e = new_file_entry(a->Some_0);
+                let s1 = spec_add_st(s0, e);
+                &&& (r is Err) == (spec_add_err(s0, e) is Some)
+                // the file (created if missing) holds exactly `data` afterwards -- the old content is replaced -- and nothing else changes
+                &&& (r is Ok && s1.files.contains_key(a->Some_0)) ==> final(guard).st() == put(s1, a->Some_0, data@)     //@ clause write_all.replaces_whole_content_and_frame [C06,C01]
+                &&& (r is Ok && !s1.files.contains_key(a->Some_0)) ==> final(guard).st() == s1
+                &&& wf(final(guard).st()) || parent_is_link(s0, a->Some_0)                                                   //@ clause write_all.wf_preserved [C03]
+            })
+        }),
+//@ body
+
+//@ item append_all file=src/sys/fs/memfs/vfs.rs block="impl VirtualFileSystem for Memfs" fn=append_all props=C06,C01,C03,C05,C12
+//@ sig fn append_all<T: AsRef<Path>, U: AsRef<[u8]>>(&self, path: T, data: U) -> RvResult<()>
+//@ rw R12 1 ⟦let mut f = self.append(path)?;⟧ => ⟦let mut f = append(fs, guard, path)?;⟧
+//@ rw R12 1 ⟦f.write_all(data.as_ref())?;⟧ => ⟦file_write_all(&mut f, data)?;⟧
+//@ rw R12 1 ⟦f.flush()?;⟧ => ⟦flush_rv(&mut f, guard)?;⟧
+//@ rw R12 1 re⟦Ok\(\(\)\)\s*\}\s*$⟧ => ⟦f.drop(guard); Ok(()) }⟧
+//@ ins start
+        let ghost s0 = guard.st();
+//@ endins
+//@ ins after ⟦append(fs, guard, path)?;⟧
+        let ghost s1 = guard.st();
+        proof { assert(file_ok(s0, f.path->Some_0@)); if wf(s1) && s1.files.contains_key(f.path->Some_0@) { lemma_put_wf(s1, f.path->Some_0@, s1.files[f.path->Some_0@].data + data@); } }
+//@ endins
+//@ ins after ⟦flush_rv(&mut f, guard)?;⟧
+        proof { let s2 = guard.st(); if s2.files.contains_key(f.path->Some_0@) { assert(s2.files.insert(f.path->Some_0@, FileV { data: f.data@, pos: s2.files[f.path->Some_0@].pos }) =~= s2.files); } }
+//@ endins
+pub fn append_all(fs: &Memfs, guard: &mut MemfsGuard, path: &PathBuf, data: &[u8]) -> (r: RvResult<()>)
+    requires wf(old(guard).st()),
+    ensures
+        r is Err ==> final(guard).st() == old(guard).st(),                                        //@ clause append_all.failure_atomic [C01]
+        ({
+            let s0 = old(guard).st();
+            let a = spec_abs(s0.cwd, path.comps());
+            &&& a is None ==> r is Err
+            &&& a is Some ==> ({
+                let e = new_file_entry(a->Some_0);
+                let s1 = spec_add_st(s0, e);
+                &&& spec_add_err(s0, e) is Some ==> r is Err
+                // existing content is kept as a prefix and `data` is added at the end; every other file and entry is unchanged
+                &&& (r is Ok) ==> s1.files.contains_key(a->Some_0) && final(guard).st() == put(s1, a->Some_0, s1.files[a->Some_0].data + data@)     //@ clause append_all.extends_and_frame [C06,C01]
+                &&& wf(final(guard).st()) || parent_is_link(s0, a->Some_0)                                                   //@ clause append_all.wf_preserved [C03]
             })
         }),
 //@ body
